@@ -1,13 +1,14 @@
 #!/bin/bash
 # tools/with_patch.sh <patch.diff> <Cxx> [tier]   run a check against a scratch copy of /repo with the patch applied
 set -u
+V=$(cd "$(dirname "$(readlink -f "$0")")/.." && pwd)
 patch=$(readlink -f "$1"); prop=$2; tier=${3:-quick}
 wt=/tmp/scratch/wt-$$
 mkdir -p /tmp/scratch
 git -C /repo worktree add -q --detach "$wt" HEAD || exit 2
 if ! git -C "$wt" apply "$patch"; then echo "PATCH DOES NOT APPLY"; git -C /repo worktree remove --force "$wt"; exit 2; fi
-ZK_REPO=$wt /verif/check "$prop" "$tier"; rc=$?
+ZK_REPO=$wt "$V/check" "$prop" "$tier"; rc=$?
 git -C /repo worktree remove --force "$wt"
-ln -sfn /repo /verif/.build/repo-under-test
+ln -sfn /repo "$V/.build/repo-under-test"
 # restore the build for /repo lazily (next ./check rebuilds)
 exit $rc
